@@ -130,6 +130,7 @@ def _seq_result(run, findings, params, knobs):
         'probes': dict({
             'overcommit_ledger_entries': st['overcommit_ledger_entries'],
             'reparent_subtree': st['reparent_subtree'],
+            'restarts_inside_histories': st.get('restarts', 0),
         }, **st.get('by_defect', {})),
         'sim_seconds': (run.sim.now - __import__('datetime').datetime(
             2026, 1, 1)).total_seconds(),
@@ -165,6 +166,8 @@ def seq_replay(world, rp):
 
 
 def _kind_of(op):
+    if op['m'] == 'RESTART':
+        return 'restart'
     m, p = op['m'], op['p'].split('?')[0]
     seg = [s for s in p.split('/') if s]
     if seg[0] == 'resource_providers':
